@@ -9,6 +9,8 @@ CONSTANTS
   Ops = {1, 2, 3, 4, 5, 6}
   MaxInFlight = 3
   AuctionImpl = "intended"
+  Resolution = "locked"
   MaxRounds = 0
+  Family = "free"
 INVARIANTS Emit KeepsLastGood LockBalanced LockAccounting
 CHECK_DEADLOCK FALSE
